@@ -261,10 +261,14 @@ class OrderedCadence(Cadence):
             raise IndexError("cadence assignment index out of range")
         if i < 0:
             i = len(self) + i
-        label = self.order[i]
-        # Store first: an out-of-range position raises before the frame is labelled
+        # Only a frame without a label needs one from the order string (looked up
+        # before storing, so that a position without a label leaves the cadence
+        # untouched); a labelled frame is stored whatever the order string
+        needs_label = "order_label" not in v.metadata
+        if needs_label:
+            label = self.order[i]
         self.frames[i] = v
-        if "order_label" not in v.metadata:
+        if needs_label:
             v.add_metadata({"order_label": label})
 
     def insert(self, i, v):
